@@ -175,12 +175,22 @@ func (i *Int) Clone() kyber.Scalar {
 // Zero set the Int to the value 0.  The modulus must already be initialized.
 func (i *Int) Zero() kyber.Scalar {
 	i.V = *compatible.NewInt(0)
+	if i.M != nil {
+		// size the value like the modulus: bigmod operations take their
+		// width from the operands
+		i.V = *compatible.NewInt(0).Mod(&i.V, i.M)
+	}
 	return i
 }
 
 // One sets the Int to the value 1.  The modulus must already be initialized.
 func (i *Int) One() kyber.Scalar {
 	i.V = *compatible.NewInt(1)
+	if i.M != nil {
+		// size the value like the modulus: bigmod operations take their
+		// width from the operands
+		i.V = *compatible.NewInt(0).Mod(&i.V, i.M)
+	}
 	return i
 }
 
